@@ -1195,6 +1195,9 @@ def _collect_add_transpose_forest(
         out = _node_output(node)
         if out is None:
             return None
+        if out.is_graph_output() or _nested_graph_references_value(nodes, out):
+            # The sum is observed in its current layout.
+            return None
         consumers = _consumer_nodes(nodes, out)
         for consumer in consumers:
             if consumer.op_type == "Add":
@@ -1285,6 +1288,8 @@ def remove_redundant_transpose_add_forests_ir(graph: ir.Graph) -> None:
                 if _consumer_nodes(live_nodes, t_out):
                     continue
                 if t_out.is_graph_output():
+                    continue
+                if _nested_graph_references_value(live_nodes, t_out):
                     continue
                 removable_inputs.append(in_transpose)
             if removable_inputs:
@@ -1555,7 +1560,9 @@ def remove_redundant_transpose_pairs_ir(graph: ir.Graph) -> None:
                 t_out = _node_output(t_node)
                 if t_out is None:
                     continue
-                if not _consumer_nodes(live_nodes, t_out):
+                if not _consumer_nodes(
+                    live_nodes, t_out
+                ) and not _value_is_observed(graph, live_nodes, t_out):
                     graph.remove(t_node)
 
             changed = True
@@ -2601,6 +2608,9 @@ def remove_orphan_transposes_ir(graph: ir.Graph) -> None:
                     is_live = True
                     break
                 if _has_named_consumer(nodes, producer=node, output_name=out_name):
+                    is_live = True
+                    break
+                if _nested_graph_references_value(nodes, out):
                     is_live = True
                     break
 
